@@ -351,6 +351,7 @@ def manager_ops(unit, model):
                     ops.append(('add_map', st, i))
                 if st == 2:
                     ops.append(('complete', st, i))
+                    ops.append(('del_key', st, i))          # a mapper key dropped without unmapping its names first
                 else:
                     ops.append(('del_key', st, i))
     return ops
@@ -400,6 +401,13 @@ def apply_manager(unit, sm, model, op):
         for n, idx in m.items():
             if sm.get_map(2, (j,), n) != idx:
                 problems.append(('mapper-state-disturbed', j))
+        if 'a' not in m and sm.get_map(2, (j,), 'a') is not NOTSET:
+            problems.append(('name-that-is-not-mapped-reads-as-mapped', j, repr(sm.get_map(2, (j,), 'a'))))
+        try:
+            if list(sm.iterate_map(2, (j,))) != list(m):
+                problems.append(('manager-iterate_map-differs', j, repr(list(sm.iterate_map(2, (j,))))))
+        except Exception as e:
+            problems.append(('manager-iterate_map-raises', j, repr(e)))
     return problems
 
 
